@@ -188,6 +188,28 @@ pub fn subscribe(
     }
 }
 
+pub fn on_update(h: &Handle, node: NodeId, sh: &Rc<Shared>) {
+    fn mk<T: ToVal>(node: NodeId, sh: &Rc<Shared>) -> impl FnMut(incremental::NodeUpdate<&T>) + 'static {
+        let sh = sh.clone();
+        let tok = sh.token();
+        move |u: incremental::NodeUpdate<&T>| {
+            let _ = &tok;
+            sh.tick("handler");
+            let (kind, value) = match u {
+                incremental::NodeUpdate::Necessary(v) => (0, Some(v.to_val())),
+                incremental::NodeUpdate::Changed(v) => (1, Some(v.to_val())),
+                incremental::NodeUpdate::Invalidated => (2, None),
+                incremental::NodeUpdate::Unnecessary => (3, None),
+            };
+            sh.log(Event::NodeUpdate { node, kind, value });
+        }
+    }
+    match h {
+        Handle::I(x) => x.on_update(mk::<i64>(node, sh)),
+        Handle::P(x) => x.on_update(mk::<(i64, i64)>(node, sh)),
+    }
+}
+
 pub fn set_cutoff(h: &Handle, kind: CutoffKind, key: NodeKey, sh: &Rc<Shared>) {
     fn mk<T: ToVal>(kind: CutoffKind, key: NodeKey, sh: &Rc<Shared>) -> Cutoff<T> {
         match kind {
